@@ -193,6 +193,8 @@ def heavy(obj, arraydom=False):
         q("l1_scaling", lambda: obj.gamut_l1_scaling(PROBES.copy()))
         if obj.underdetermined:
             q("range", lambda: obj.range_of_solutions(PROBES.copy(), error="ignore"))
+            # secondary-objective fit (C08's subject): only its dependence on the registered state matters here
+            q("underdetermined", lambda: obj.fit_underdetermined(PROBES[:2].copy(), underdetermined_opt="l2", l2_eps=1e-4))
             if not isinstance(obj.Epsilon, str):
                 # the variance-minimising fit reads the system's Epsilon (interior probes only: unique optimum)
                 q("minimize_variance", lambda: obj.minimize_variance(PROBES[:2].copy(), l2_eps=1e-3, solver="CLARABEL"))
@@ -361,6 +363,8 @@ def _replay_inner(st, mode, bad):
     h2 = heavy(obj, ad)
     for name, v in h1.items():
         precondition = (name == "in_hull" and not est["reg"]) or name == "dist_scaling"
+        if name == "underdetermined" and v == "EXC:RuntimeError":
+            continue      # a probe outside the gamut: the constraint cannot be met (the fresh object must fail alike)
         # documented preconditions: queries before a system is registered; chromatic scaling needs non-negative
         # captures and a neutral point inside the chromatic gamut (AssertionError otherwise)
         if isinstance(v, str) and not (precondition and v == "EXC:AssertionError"):
